@@ -65,6 +65,9 @@ func (s *Script) Setup() {
 	w := s.W
 	ctx := w.Root
 	must(w.StdChain(ctx, Ref))
+	// governance-set fee rates above and below 1 (fees derived from the relayer fee can exceed it)
+	must(w.App.TreasuryKeeper.SetCommunityFundFee(ctx, "1.5"))
+	must(w.App.TreasuryKeeper.SetSecurityFee(ctx, "0.3"))
 	// a second, quiet chain (no contract calls are ever queued for it): the only valset updates it
 	// receives come from the keep-warm decision when a new snapshot is built
 	must(w.AddChain(ctx, Ref2, 56, 1))
